@@ -378,19 +378,58 @@ func (t *transpiler) evaluateFor(forStatement parser.For) error {
 }
 
 func (t *transpiler) evaluateVarDefinition(definition parser.VariableDefinition) error {
-	for i, variable := range definition.Variables() {
-		result, err := t.evaluateExpression(definition.Values()[i], true)
+	variables := definition.Variables()
 
-		if err != nil {
-			return err
-		}
-		err = t.converter.VarDefinition(userName(variable.Name()), result.firstValue(), variable.Global())
+	// Evaluate all values before any variable is defined because a definition might re-use
+	// a variable of the same scope (a, c := 5, a).
+	values, err := t.evaluateSimultaneousValues(definition.Values(), len(variables))
+
+	if err != nil {
+		return err
+	}
+
+	for i, variable := range variables {
+		err := t.converter.VarDefinition(userName(variable.Name()), values[i], variable.Global())
 
 		if err != nil {
 			return err
 		}
 	}
 	return nil
+}
+
+// evaluateSimultaneousValues evaluates the first count expressions. If there's more than one value,
+// every value is stored in a temporary to make sure it's not changed by a following assignment.
+func (t *transpiler) evaluateSimultaneousValues(expressions []parser.Expression, count int) ([]string, error) {
+	values := []string{}
+
+	for i := 0; i < count; i++ {
+		result, err := t.evaluateExpression(expressions[i], true)
+
+		if err != nil {
+			return nil, err
+		}
+		value := result.firstValue()
+
+		if count > 1 {
+			// Every temporary gets its own name, otherwise a function called on the right-hand
+			// side which performs a multi-assignment itself would overwrite it.
+			temp := fmt.Sprintf("_ma%d", t.multiAssignCounter)
+			t.multiAssignCounter++
+			err = t.converter.VarAssignment(temp, value, true)
+
+			if err != nil {
+				return nil, err
+			}
+			value, err = t.converter.VarEvaluation(temp, true, true)
+
+			if err != nil {
+				return nil, err
+			}
+		}
+		values = append(values, value)
+	}
+	return values, nil
 }
 
 func (t *transpiler) evaluateVarDefinitionCallAssignment(definition parser.VariableDefinitionCallAssignment) error {
@@ -420,34 +459,12 @@ func (t *transpiler) evaluateVarDefinitionCallAssignment(definition parser.Varia
 
 func (t *transpiler) evaluateVarAssignment(assignment parser.VariableAssignment) error {
 	variables := assignment.Variables()
-	values := []string{}
 
 	// Evaluate all values before any variable is changed to support simultaneous assignments (a, b = b, a).
-	for i := range variables {
-		result, err := t.evaluateExpression(assignment.Values()[i], true)
+	values, err := t.evaluateSimultaneousValues(assignment.Values(), len(variables))
 
-		if err != nil {
-			return err
-		}
-		value := result.firstValue()
-
-		if len(variables) > 1 {
-			// Every temporary gets its own name, otherwise a function called on the right-hand
-			// side which performs a multi-assignment itself would overwrite it.
-			temp := fmt.Sprintf("_ma%d", t.multiAssignCounter)
-			t.multiAssignCounter++
-			err = t.converter.VarAssignment(temp, value, true)
-
-			if err != nil {
-				return err
-			}
-			value, err = t.converter.VarEvaluation(temp, true, true)
-
-			if err != nil {
-				return err
-			}
-		}
-		values = append(values, value)
+	if err != nil {
+		return err
 	}
 
 	for i, variable := range variables {
